@@ -303,6 +303,9 @@ Definition step_st (cf : cfg) (s : st) (e : ev) : st := fst (step cf s e).
                 success | 5 ok, and the failure classifier panics on it | anything else: panic
      min_calls < 0 in the configuration = minimum_number_of_calls not set (defaults to the
      window size)
+     first field = time_based + 2*unit_us: with unit_us = 1 every duration and advance of the
+     script is in microseconds instead of milliseconds; the model is unit-agnostic and ignores
+     the bit (only the driver needs it)
    trace = per event [r; started; state; state_sync; metrics.state; total; failures; successes;
                       slow; in-flight; wake mask]   (states: 0 Closed, 1 Open, 2 HalfOpen) *)
 Definition outcome_of (z : Z) : outcome :=
@@ -347,7 +350,7 @@ Fixpoint run_evs (cf : cfg) (n : nat) (s : st) (evs : list ev) : list Z :=
   end.
 
 Definition cfg_of (sc : list Z) : cfg :=
-  mkCfg (z2b (zn sc 0)) (zn sc 1) (zn sc 2) (if zn sc 3 <? 0 then zn sc 1 else zn sc 3) (zn sc 4) (zn sc 5) (z2b (zn sc 6))
+  mkCfg (Z.odd (zn sc 0)) (zn sc 1) (zn sc 2) (if zn sc 3 <? 0 then zn sc 1 else zn sc 3) (zn sc 4) (zn sc 5) (z2b (zn sc 6))
         (zn sc 7) (zn sc 8) (zn sc 9) (zn sc 10) (zn sc 11) (z2b (zn sc 12)).
 
 Definition run_script (sc : list Z) : list Z :=
